@@ -62,7 +62,7 @@ func VerifC16Verdict() {
 		uf.array = append(uf.array, false)
 	}
 	bodies := []string{"", "", "", ""} // f, g, BEGIN, h
-	usedP2, usedQ2 := false, false    // second parameters exist only when something refers to them
+	usedP2, usedQ2 := false, false     // second parameters exist only when something refers to them
 	for s := 0; s < nslots; s++ {
 		// quick tier: the first two slots range over 4 places x 5 uses, the last slot is a direct use at any place;
 		// thorough tier: every slot ranges over all 9 places x 7 uses
